@@ -2,7 +2,7 @@
 """C06 — outbound SMTP DATA cannot be terminated or hijacked by message content."""
 import os, sys
 sys.path.insert(0, os.path.join(os.path.dirname(os.path.abspath(__file__)), "..", "tools"))
-from nqlib import run_standard, VERIF
+from nqlib import run_standard, VERIF, byte_mutations, kv
 
 RULE = ("every byte string over {CR,LF,'.','a'} up to length %s (exhaustive; read chunkings full/1/2/3, short writes, and for the shorter ones "
         "tiny substdio buffers, a failing read() at every position and a failing write()) plus seeded random messages up to 64 KiB (7 of 8 ending in a line end, "
@@ -15,6 +15,26 @@ RULE = ("every byte string over {CR,LF,'.','a'} up to length %s (exhaustive; rea
         "no bare LF, stuffed lines, dblast(out)=rfcDecode(out)=canon(in), nothing left unflushed; refused/failed/dropped ones (C06_prefix_no_terminator) - "
         "flushed+buffered bytes are a prefix of the encoder output, no bare LF, no lone-dot line; every non-failing split gives the same wire; "
         "non-trivial = distinct input containing a CR or a dot at a line start")
+
+PREFIXES = ("0", "1", "2", "3", "1023/1", "1024/1023")
+
+
+def mutate(dis, seed):
+    """failing-input search around disagreeing cases: shortest inputs first, each mutated under ITS OWN plan as well as the
+    standard ones; the volume is bounded (long inputs get fewer mutations) so that the single-process search stays in seconds"""
+    ds = sorted(dis, key=lambda d: len(kv(d).get("in", "")))[:50]
+    cases, vol = set(), 0
+    for d in ds:
+        f = kv(d)
+        plans = tuple(dict.fromkeys((f.get("chunk", "0"),) + PREFIXES))
+        per = max(4, min(400, 6000000 // (50 * max(1, len(f.get("in", "-"))) * len(plans))))
+        new = byte_mutations([d], seed, b"\r\n.a", per=per, prefix_variants=plans)
+        cases.update(new)
+        vol += sum(len(c) for c in new)
+        if vol > 4000000:
+            break
+    return sorted(cases)
+
 
 def builder(s):
     """qmail-remote as a program object of its own (its writable data in sections the harness restores before every case:
@@ -29,7 +49,7 @@ def builder(s):
 run_standard("C06", "Nq.Props.C06", "drv_c06", "harness/c06_blast.c", "qmail-remote", ["timeoutwrite.o"],
              "9 4000", "12 60000", {"quick": RULE % (9, 5), "thorough": RULE % (12, 8)},
              "rblast (Nq/SmtpOut.lean) and oblast over Nq.Substdio (Nq/SmtpIO.lean) vs qmail-remote.c blast() over substdi.c/substdo.c/safewrite",
-             builder=builder, alphabet=b"\r\n.a", stdin_prefixes=("0", "1", "2", "3", "1023/1", "1024/1023"),
+             builder=builder, mutate=mutate, alphabet=b"\r\n.a", stdin_prefixes=PREFIXES,
              assumptions=["the value-level substdio model (Nq/Substdio.lean: buffers are byte lists, not the arrays) is tied to substdi.c/substdo.c by running "
                           "the real substdio under the read/write plans and comparing wire, buffered bytes and write() counts (and by C20's harness); "
                           "read() returns 0 only at the end of the file; write() returns >= 1 or fails (safewrite treats 0 as failure)",
